@@ -44,7 +44,7 @@ func consensusView(n *simnode.Node, back, ahead int) string {
 		}()
 		cur := pr.EpochTicker().ToTick(*fr.Timestamp)
 		stats := map[string]any{}
-		for e := uint64(0); e < cur; e++ {
+		for e := uint64(0); e <= cur; e++ { // incl. the running epoch (what the RPC consensus cache asks for)
 			s, err := pr.EpochStats(e)
 			if err != nil {
 				stats[fmt.Sprintf("%d_err", e)] = err.Error()
